@@ -42,6 +42,13 @@ def wrapper(case):
                 lb, ub = np.broadcast_to(bounds[0], x.shape), np.broadcast_to(bounds[1], x.shape)
                 if any(np.any(p < lb - 1e-15) or np.any(p > ub + 1e-15) for p in pts):
                     bad.append(dict(what='evaluation outside the box', method=method, bounds=str(bounds)[:80]))
+    # default step: accuracy must not collapse for coordinates much smaller than 1 (scipy scales its default step by max(1, |x|))
+    for method, tol in (('central', 1e-7), ('forward', 1e-5)):
+        xs = np.array([1e-6, 2.0, -1e-9])
+        J = ns.Jacobian(lambda z: np.exp(3 * z), method=method)(xs)
+        want = np.diag(3 * np.exp(3 * xs))
+        if not np.allclose(J, want, rtol=tol, atol=tol):
+            bad.append(dict(what='default step at small |x|', method=method, x=xs.tolist(), got=np.diag(J).tolist(), expected=np.diag(want).tolist()))
     # one object called several times: every call differentiates f(x, <that call's extra arguments>)
     w = np.array([1.0, -2.0, 0.5])
     for klass, f in (('Jacobian', lambda z, c=1.0, shift=0.0: c * w * z + shift), ('Gradient', lambda z, c=1.0, shift=0.0: c * np.sum(w * z * z) + shift)):
